@@ -25,7 +25,11 @@ func vpPath(name string, depth, maxc int) string {
 		if i > 0 {
 			p += "/"
 		}
-		p += vpComp(name+"_"+string(rune('a'+i)), maxc)
+		m := maxc
+		if dm := zzvp.Param("deepcomplen", maxc); i > 0 && dm < m {
+			m = dm // bound for the components below the first one (keeps the shape count down where only siblings at the top matter)
+		}
+		p += vpComp(name+"_"+string(rune('a'+i)), m)
 	}
 	return p
 }
